@@ -33,7 +33,7 @@ def bounds(tier):
         "levels": [0, 1] if tier == "quick" else [0, 1, 2],
         "conditions": 2 if tier == "quick" else 3,
         "dtypes": ["float64"] + (["float32 (representative leaves + depth-1 of them)"] if tier == "quick" else ["float32 (all leaf configurations, one per (kind, option, child class) at depth 1)"]),
-        "factories": "5 factories x invert T/F x cond None/2 x 2 layers",
+        "factories": "5 factories (9 configurations) x invert T/F x cond None/2 x 2 layers at dim 2; unconditional also at dim 1 and 3",
         "configured_inverter": "BlockAutoregressiveNetwork dim 1-3 x cond x depth 1-2 x AutoregressiveBisectionInverter(tol in {1e-2,1e-3,1e-5}, bracket (-10,10)|(-0.5,0.5)) x 2 levels x 12 points incl. the flat tails",
         "exhaustive_within_bounds": True,
     }
@@ -61,6 +61,13 @@ def enumerate_cases(tier, seed):
             for cond in (None, 2):
                 cases.append({"id": f"f64|factory|{f}|invert={int(inv)}|cond={cond}", "factory": f, "invert": inv,
                               "cond": cond, "x64": True, "tier": tier, "seed": seed})
+    # the factories again at dimension 1 and 3 (dimension-dependent structure: the default permutation between layers is none /
+    # a flip / a random permutation, the coupling split is dim // 2, block shapes scale with dim)
+    for f in FACTORIES:
+        for inv in (True, False):
+            for dim in (1, 3):
+                cases.append({"id": f"f64|factory|{f}|invert={int(inv)}|cond=None|dim={dim}", "factory": f, "invert": inv, "cond": None, "dim": dim,
+                              "x64": True, "tier": tier, "seed": seed})
     # numerically inverted bijections with a CONFIGURED search tolerance / bracket (the statement's "or the configured search tolerance")
     for dim in (1, 2, 3):
         for cond in (None, 2):
@@ -279,9 +286,10 @@ def run_case(case):
     levels = [0, 1] if tier == "quick" else [0, 1, 2]
     ncond = 2 if tier == "quick" else 3
     if "factory" in case:
-        ii = factory_info(case["factory"], case["invert"], case["cond"])
-        cls = f"factory:{case['factory']}"
-        builder = lambda lvl: build_factory(case["factory"], case["invert"], case["cond"], seed, lvl).bijection  # noqa: E731
+        fdim = case.get("dim", 2)
+        ii = factory_info(case["factory"], case["invert"], case["cond"], dim=fdim)
+        cls = f"factory:{case['factory']}" + ("" if fdim == 2 else f"[dim={fdim}]")
+        builder = lambda lvl: build_factory(case["factory"], case["invert"], case["cond"], seed, lvl, dim=fdim).bijection  # noqa: E731
     else:
         spec = case["spec"]
         ii = g.info(spec)
